@@ -34,8 +34,10 @@ def structural_check(ev):
 
 
 def write(pid, ev):
-    os.makedirs(os.path.join(VERIF, "evidence"), exist_ok=True)
-    path = os.path.join(VERIF, "evidence", f"{pid}.json")
+    # VERIF_EVIDENCE_DIR: mutation experiments must not overwrite the evidence of the real tree
+    evdir = os.environ.get("VERIF_EVIDENCE_DIR") or os.path.join(VERIF, "evidence")
+    os.makedirs(evdir, exist_ok=True)
+    path = os.path.join(evdir, f"{pid}.json")
     tmp = path + ".tmp"
     with open(tmp, "w") as f:
         json.dump(ev, f, indent=1, sort_keys=True)
